@@ -37,6 +37,10 @@ def bindings(rnd, n):
         (((0.6, 0.6, 0.6), "white", False), ("(0.6, 0.6, 0.6)", "white", False)),
         (((200.0, 0.5, 0.5), "#ffffff", False), ("(200.0, 0.5, 0.5)", "#ffffff", False)),
         (([119, 119, 119], "#ffffff", False), ("[119, 119, 119]", "#ffffff", False)),
+        # list-spelled colours with numeric-string components (the caller's list must come back as it went in; the same list
+        # object is used wherever the history names this pair)
+        ((["255", "1", "1"], "#ffffff", False), (["0.4", "0.4", "0.4"], [20, 20, 20], True)),
+        ((["119", "119", "119"], ["255", "255", "255"], False), ([1, "0.5%", "1"], "#ffffff", False)),
         # CSS-wide / special keywords that are NOT colours of this library: invalid in a fresh interpreter, so invalid always
         (("#777777", "transparent", False), ("transparent", "#ffffff", False)),
         (("currentcolor", "#ffffff", False), ("#777777", "TRANSPARENT", True)),
@@ -191,7 +195,7 @@ def main():
     rep.add_model("ApiHist(Depth=3,NP=2) history generator", r, "abstract histories replayed into the implementation")
     hists = [h for h in hists if len(h) >= 2 and any(o[0] in ("fix", "bulk") for o in h[1:])]
     rep.extra["histories_enumerated_by_tlc"] = len(hists)
-    nb = 21 if t == "quick" else 44
+    nb = 23 if t == "quick" else 46
     binds = bindings(rnd, nb)
     nh = 420 if t == "quick" else 9000
     jobs = []
